@@ -664,10 +664,11 @@ def run_check(pid, tier, seed, replay, t0):
                                     configurations=len(stats["cfgs"])),
             cases_checked_by_property_oracle=stats.get("oracle_cases", 0),
             steps_inside_history_fragment=stats["spec_steps"], cases_entirely_inside_history_fragment=stats["spec_cases"],
-            history_fragment_rule="a step is inside the fragment when no panic fuse is armed, WorldSpec.spec_step is defined on the abstraction of the "
-                                  "machine world and the environment assumption admissibleb holds (AV.Proofs.Track.spec_track); for these steps the "
-                                  "theorems C01_step_refines / spec_track_sound apply and the specification's prediction is compared with the model on every run; "
-                                  "a case entirely inside is an instance of C01_history_refines from the empty world",
+            history_fragment_rule="a step is inside the fragment when WorldSpec.spec_step_f (spec_step without a fuse, the fused fragment with an "
+                                  "armed one) is defined on the abstraction of the machine world and the environment assumption admissibleb holds "
+                                  "(AV.Proofs.Track.spec_track); for these steps the theorems C01_step_refines / C06_step_refines_fused / spec_track_sound "
+                                  "apply and the specification's prediction is compared with the model on every run; a case entirely inside is an "
+                                  "instance of C01_history_refines / C06_history_refines_fused from the empty world; compare with steps_executed",
             known_findings_printed=sorted(seen_known), crashed_shards=len(crashed),
             coq_build_s=round(coq_s, 1), extraction_crosschecked_in_coq=cc_count[0], **extra_cov
         ),
